@@ -185,6 +185,14 @@ def directed(rng):
         nodes = [dc.node("c1", "pa", "t3")]
         pods = [dc.pod("p1", "c1", cpu=1500)]
         add("reprice-" + name, nodes, pods, during)
+    # I: the pods of the removed node cannot share one replacement (two zones / two capacity types): never m -> 2
+    for sel_a, sel_b in (({"zone": "zone-a"}, {"zone": "zone-b"}), ({"ct": "spot"}, {"ct": "on-demand"})):
+        nodes = [dc.node("c1", "pa", "t3"), dc.node("c2", "pa", "t3", zone="zone-b")]
+        pods = [dc.pod("pa1", "c1", cpu=600, sel=sel_a), dc.pod("pb1", "c1", cpu=600, sel=sel_b),
+                dc.pod("pa2", "c2", cpu=600, sel=sel_a), dc.pod("pb2", "c2", cpu=600, sel=sel_b)]
+        out.append(scenario("split-pods:" + "-".join(sel_a.values()), default_catalog(), [dc.pool("pa")], nodes, pods,
+                            [{"a": "Method", "method": "multi"}, {"a": "Method", "method": "single"}, {"a": "Round"}],
+                            {"kind": "directed", "case": "split-pods"}))
     # D: the pod on the removed node disappears while the command waits (witness mentions a pod that is gone)
     nodes = [dc.node("c1", "pa", "t3")]
     pods = [dc.pod("p1", "c1", cpu=1500), dc.pod("p1b", "c1", cpu=300)]
